@@ -25,9 +25,12 @@
 ** Parameters:  phase=base|range|slice|zip|filter|map|compose|heap|history|assign|midop|gcitems (rangeneg=1 zipget=1 sliceget=1: see proposed/D29, D30, D31)   hmax=N (history: largest size)
 **              kinds=all|array,list,tuple,htuple,table,tree,range   maxn=N  amax=N  rmax=N
 **              zmax=N (zip child length bound)  flmax=N (filter length bound)  cset=small|wide
+**              phase=midop: part=classic|shrunk|all   shrunk part: smin= smax= sstep= (container lengths)  sparams=N (Slice parameter sets)  sidx=K (indices -len-K..len+K)
+**              phase=gcitems: part=items|sole|all   gmax=N (largest element count)  solemax=N (the same for the sole-holder part only)
 */
 
 #include "vf.h"
+#include "vf_probe.h"
 
 /* ---- limits ---------------------------------------------------------------------- */
 
@@ -1676,9 +1679,329 @@ static void m_run(var x, const char* params) {
   }
 }
 
+/* ==== phase=midop, second part (shrunk=1): the underlying container changes length AFTER the view was built ====
+**
+** A Slice caches the length of its underlying iterable when it is constructed.  When the container is shortened afterwards
+** (pop, pop_at / rem, resize) an index inside the Slice's own window is refused by the *container* - after Range_Get has
+** already worked on the cursor the Slice shares with its iteration - instead of by the Slice.  For every container kind that
+** can shrink, every view shape below (built first), every change of length (applied second) and both directions, the view is
+** walked with one get(target, i) at one position - for every position, every target (the view itself and the Slices inside
+** it) and every i in [-len-2 .. len+2], refused or accepted - and once more with all those calls at every position.
+** The oracle is differential only (nothing about a view over a container of another length is taken from a definition):
+** the disturbed walk yields exactly the items (objects and values) of the undisturbed walk of the same view over the same
+** container, the held item reads the same before and after the call, and the call itself raises what / returns the object
+** that the same call does with no iteration in progress.  A successful get on a Zip or Map moves their iteration on the
+** current tree (existing behaviour, see successful_get_moves_iteration): on those only refused calls are made.
+** Which walks are well defined at all is decided beforehand on a probe container (PSeq, a user-defined iterable of the
+** same length history) that records whether the view ever hands Terminal or a pointer that is not one of its items back to
+** iter_next / iter_prev: shapes that do (the stale window makes the Slice step through the end) are skipped and counted.
+*/
+
+struct PSeq { int64_t n; int64_t unsafe; var items[16]; };
+static int64_t PSeq_Find(struct PSeq* s, var curr) { for (int64_t i = 0; i < s->n; i++) if (s->items[i] == curr) return i; return -1; }
+static size_t PSeq_Len(var self) { return (size_t)((struct PSeq*)self)->n; }
+static var PSeq_Get(var self, var key) {
+  struct PSeq* s = self; int64_t i = c_int(key);
+  if (i < 0) i += s->n;
+  if (i < 0 || i >= s->n) return throw(IndexOutOfBoundsError, "index %i out of bounds for the probe sequence", key);
+  return s->items[i];
+}
+static var PSeq_Iter_Init(var self) { struct PSeq* s = self; return s->n ? s->items[0] : Terminal; }
+static var PSeq_Iter_Last(var self) { struct PSeq* s = self; return s->n ? s->items[s->n - 1] : Terminal; }
+static var PSeq_Iter_Next(var self, var curr) {
+  struct PSeq* s = self; int64_t i = PSeq_Find(s, curr);
+  if (i < 0) { s->unsafe = 1; return Terminal; }
+  return i + 1 < s->n ? s->items[i + 1] : Terminal;
+}
+static var PSeq_Iter_Prev(var self, var curr) {
+  struct PSeq* s = self; int64_t i = PSeq_Find(s, curr);
+  if (i < 0) { s->unsafe = 1; return Terminal; }
+  return i > 0 ? s->items[i - 1] : Terminal;
+}
+static var PSeq_Iter_Type(var self) { return Int; }
+var PSeq = Cello(PSeq,
+  Instance(Len, PSeq_Len),
+  Instance(Get, PSeq_Get, NULL, NULL, NULL, NULL, NULL),
+  Instance(Iter, PSeq_Iter_Init, PSeq_Iter_Next, PSeq_Iter_Last, PSeq_Iter_Prev, PSeq_Iter_Type));
+
+enum { SK_ARRAY, SK_LIST, SK_TUPLE, SK_TABLE, SK_TREE, SK_N };
+static const char* sk_name[] = { "array", "list", "tuple", "table", "tree" };
+enum { MU_NONE, MU_POP1, MU_POP2, MU_FRONT, MU_MID, MU_RESIZE, MU_PUSH1, MU_PUSH2, MU_N };
+static const char* mu_name[] = { "unchanged", "pop1", "pop2", "remove-front", "remove-middle", "resize-less", "push1", "push2" };
+static const int mu_delta[] = { 0, -1, -2, -1, -1, -1, 1, 2 };
+enum { SH_SLICE, SH_SLICE2, SH_ZIP_SL, SH_ZIP_LS, SH_ZIP_SS, SH_MAP, SH_FILTER, SH_N };
+static const char* sh_name[] = { "slice", "slice-of-slice", "zip(slice,list)", "zip(list,slice)", "zip(slice,slice)", "map(slice)", "filter(slice)" };
+#define S_IDX 40
+#define S_WMAX 24
+
+struct scase { int kind, n, mut, shape, heap; const int* p1; const int* p2; unsigned mask; };
+struct sget { var exc; var ptr; int64_t val; };
+static struct { int nt; var tgt[3]; const char* tname[3]; int all[3]; int len[3], lo[3], hi[3]; struct sget g[3][S_IDX]; } s_t;
+static int s_margin = 1;                           /* indices tried: -len-margin .. len+margin */
+static int s_pairs;                                /* the walked view yields pairs (a Zip) */
+static var s_L[12];                                /* untouched lists of length 0..11, partners of the Zips */
+static uint64_t s_skipped_walks, s_judged_walks, s_refused_calls, s_accepted_calls, s_shapes, s_unstable;
+static uint64_t s_refused_by_container;
+
+static int64_t s_code(var it) {
+  if (s_pairs) return c_int(get(it, $I(0))) * 1000 + c_int(get(it, $I(1)));
+  return c_int(it);
+}
+
+/* one get(target t, i); the outcome is compared with the same call made while no iteration was in progress */
+static const char* volatile s_getbad; static volatile int s_bad_t, s_bad_i; static var s_bad_exc;
+static void s_get(int t, int i) {
+  volatile var g = NULL;
+  vf.executions++;
+  var e = VF_CATCH(g = get(s_t.tgt[t], $I(i)));
+  struct sget* w = &s_t.g[t][i - s_t.lo[t]];
+  if (e) s_refused_calls++; else s_accepted_calls++;
+  if (s_getbad) return;
+  if (e != w->exc) { s_getbad = e ? (w->exc ? "get-raises-another-exception" : "get-refused-only-during-iteration") : "get-accepted-only-during-iteration"; s_bad_t = t; s_bad_i = i; s_bad_exc = e; return; }
+  if (!e && s_t.all[t] && ((var)g != w->ptr || c_int((var)g) != w->val)) { s_getbad = "get-returns-another-item"; s_bad_t = t; s_bad_i = i; s_bad_exc = NULL; }
+}
+
+struct swalk { int n; int64_t code[S_WMAX]; var ptr[S_WMAX]; };
+static struct swalk s_w; static const char* volatile s_sym; static volatile int s_done; static volatile int64_t s_held_before, s_held_after;
+
+/* walk v; at position `at` (-1: nowhere, -2: everywhere) make the call (t, i), or every permitted call when t < 0 */
+static int s_walk(var v, int backward, int horizon, int at, int t, int i) {
+  static volatile int cnt; cnt = 0; s_sym = NULL; s_done = 0; s_getbad = NULL;
+  vf.executions++;
+  var e = VF_CATCH({
+    var it = backward ? iter_last(v) : iter_init(v);
+    while (it isnt Terminal) {
+      if (cnt >= horizon || cnt >= S_WMAX) { s_sym = "nonterminating"; break; }
+      if (it is NULL) { s_sym = "null-item"; break; }
+      s_w.ptr[cnt] = it; s_w.code[cnt] = s_code(it);
+      if (at == cnt || at == -2) {
+        int64_t before = s_w.code[cnt];
+        if (t >= 0) s_get(t, i);
+        else for (int tt = 0; tt < s_t.nt; tt++) for (int ii = s_t.lo[tt]; ii <= s_t.hi[tt]; ii++)
+          if (s_t.all[tt] || s_t.g[tt][ii - s_t.lo[tt]].exc) s_get(tt, ii);
+        int64_t after = s_code(it);
+        if (!s_done || before != after) { s_held_before = before; s_held_after = after; }
+        if (before != after && !s_sym) { s_sym = "held-item-changed"; }
+        s_done = 1;
+        if (s_sym) break;
+      }
+      cnt = cnt + 1;
+      it = backward ? iter_prev(v, it) : iter_next(v, it);
+    }
+  });
+  if (e && !s_sym) s_sym = "walk-raises";
+  s_w.n = cnt;
+  return s_sym ? -1 : cnt;
+}
+
+static struct scase* s_cur; static const char* s_curtgt;
+static void s_report(const char* what, const char* dir, const char* symptom, const char* fmt, ...) {
+  char label[240], detail[900];
+  snprintf(label, sizeof label, "midop/shrunk/%s%s/over-%s/%s/%s/%s/%s", s_cur->heap ? "new-" : "", sh_name[s_cur->shape], sk_name[s_cur->kind], mu_name[s_cur->mut], what, dir, symptom);
+  va_list ap; va_start(ap, fmt); vsnprintf(detail, sizeof detail, fmt, ap); va_end(ap);
+  vf_violation(label, NULL, "%s", detail);
+}
+
+static size_t s_seq_str(struct swalk* w, char* b, size_t cap) {
+  size_t o = 0; b[0] = 0;
+  for (int i = 0; i < w->n && o + 24 < cap; i++) o += snprintf(b + o, cap - o, "%s%" PRId64, i ? " " : "", w->code[i]);
+  return o;
+}
+
+static void s_mutate(struct scase* q, var c) {
+  int map = q->kind >= SK_TABLE, n = q->n;
+  switch (q->mut) {
+  case MU_POP1: case MU_POP2:
+    for (int k = 0; k < q->mut; k++) { if (map) rem(c, hval[n - 1 - k]); else pop(c); }
+    break;
+  case MU_FRONT: if (map) rem(c, hval[0]); else pop_at(c, $I(0)); break;
+  case MU_MID: if (map) rem(c, hval[n / 2]); else pop_at(c, $I(n / 2)); break;
+  case MU_RESIZE: resize(c, (size_t)(n - 1)); break;
+  case MU_PUSH1: case MU_PUSH2:
+    for (int k = 0; k <= q->mut - MU_PUSH1; k++) { if (map) set(c, hval[n + k], $I(n + k + 1000)); else push(c, hval[n + k]); }
+    break;
+  default: break;
+  }
+}
+
+static void s_case_str(struct scase* q, char* cs, size_t cap) {
+  size_t o = snprintf(cs, cap, "midop shrunk view=%s%s over=%s[%d] params=%d,%d,%d", q->heap ? "new-" : "", sh_name[q->shape], sk_name[q->kind], q->n, q->p1[0], q->p1[1], q->p1[2]);
+  if (q->shape == SH_SLICE2) o += snprintf(cs + o, cap - o, " outer=%d,%d,%d", q->p2[0], q->p2[1], q->p2[2]);
+  if (q->shape == SH_FILTER) o += snprintf(cs + o, cap - o, " mask=0x%02x", q->mask);
+  snprintf(cs + o, cap - o, " then=%s", mu_name[q->mut]);
+}
+
+/* the experiment on a built view V (targets in s_t) whose underlying container has just been changed */
+static void s_experiment(struct scase* q, var V, const char* cs, int* safe) {
+  static struct swalk base[2]; char full[400], sb1[300], sb2[300];
+  int m = q->n + mu_delta[q->mut];
+  /* every call with no iteration in progress */
+  for (int t = 0; t < s_t.nt; t++) for (int i = s_t.lo[t]; i <= s_t.hi[t]; i++) {
+    volatile var g = NULL; struct sget* w = &s_t.g[t][i - s_t.lo[t]];
+    w->exc = VF_CATCH(g = get(s_t.tgt[t], $I(i))); w->ptr = (var)g; w->val = 0;
+    if (!w->exc && s_t.all[t]) { volatile int64_t val = 0; var e2 = VF_CATCH(val = c_int((var)g)); if (e2) w->exc = e2; w->val = (int64_t)val; }
+  }
+  for (int d = 0; d < 2; d++) {
+    const char* dn = d ? "bwd" : "fwd";
+    if (!safe[d]) { s_skipped_walks++; continue; }
+    snprintf(full, sizeof full, "%s dir=%s undisturbed", cs, dn);
+    vf_set_cur("%s", full);
+    int c = s_walk(V, d, m + q->n + HORIZON, -1, -1, 0);
+    if (c < 0) { s_unstable++; continue; }      /* not well defined on this tree either: nothing to compare with */
+    base[d] = s_w;
+    c = s_walk(V, d, m + q->n + HORIZON, -1, -1, 0);
+    if (c != base[d].n || memcmp(s_w.code, base[d].code, c * sizeof s_w.code[0]) != 0 || memcmp(s_w.ptr, base[d].ptr, c * sizeof s_w.ptr[0]) != 0) { s_unstable++; continue; }
+    s_judged_walks++;
+    for (int p = 0; p <= base[d].n; p++) for (int t = -1; t < s_t.nt; t++) {
+      /* p == n: the all-calls-at-every-position walk (t = -1 only) */
+      if ((p == base[d].n) != (t == -1)) continue;
+      if (t == -1 && base[d].n == 0) continue;
+      int lo = t < 0 ? 0 : s_t.lo[t], hi = t < 0 ? 0 : s_t.hi[t];
+      for (int i = lo; i <= hi; i++) {
+        if (t >= 0 && !s_t.all[t] && !s_t.g[t][i - lo].exc) continue;
+        if (t >= 0) snprintf(full, sizeof full, "%s dir=%s at=%d op=get(%s,%d)", cs, dn, p, s_t.tname[t], i);
+        else snprintf(full, sizeof full, "%s dir=%s at=every-position op=all-calls", cs, dn);
+        if (vf.replay && strcmp(vf.replay, full) != 0) continue;
+        if ((ncases++ & 1023) == 0) vf_watchdog(60);
+        vf_set_cur("%s", full);
+        vf.evaluations++; if (base[d].n >= 2) vf.nontrivial++;
+        int refused = t >= 0 && s_t.g[t][i - lo].exc != NULL;
+        const char* what = t < 0 ? "all-calls" : refused ? "refused-get" : "accepted-get";
+        if (refused && i >= -s_t.len[t] && i < s_t.len[t]) s_refused_by_container++;   /* an index inside the target's own (stale) window */
+        c = s_walk(V, d, base[d].n + HORIZON, t < 0 ? -2 : p, t, i);
+        const char* sym = NULL;
+        if (!s_done) sym = "position-not-reached";
+        else if (s_getbad) sym = s_getbad;
+        else if (c < 0) sym = s_sym;
+        else if (c != base[d].n) sym = c < base[d].n ? "iteration-ends-early" : "iteration-too-long";
+        else if (memcmp(s_w.code, base[d].code, c * sizeof s_w.code[0]) != 0 || memcmp(s_w.ptr, base[d].ptr, c * sizeof s_w.ptr[0]) != 0) sym = "remaining-items-differ";
+        if (!sym) { if (vf_want_sample()) vf_sample("%s -> %s, walk unchanged (%d items)", full, t < 0 ? "all calls" : vf_exc_name(s_t.g[t][i - lo].exc), c); continue; }
+        s_seq_str(&s_w, sb1, sizeof sb1); s_seq_str(&base[d], sb2, sizeof sb2);
+        if (s_getbad) s_report(what, dn, sym, "get(%s, %d) in the middle of the walk gave %s, with no iteration in progress %s", s_t.tname[s_bad_t], s_bad_i, vf_exc_name(s_bad_exc), vf_exc_name(s_t.g[s_bad_t][s_bad_i - s_t.lo[s_bad_t]].exc));
+        else if (sym == s_sym && strcmp(sym, "held-item-changed") == 0) s_report(what, dn, sym, "the item held at position %d read %" PRId64 " before and %" PRId64 " after the call", p, (int64_t)s_held_before, (int64_t)s_held_after);
+        else {
+          char where[40]; if (t < 0) snprintf(where, sizeof where, "every position"); else snprintf(where, sizeof where, "position %d", p);
+          s_report(what, dn, sym, "%s walk with %s at %s yields [%s] (%s); the same walk without the call yields [%s] (container length %d -> %d after the view was built)", d ? "backward" : "forward", t < 0 ? "every call" : (refused ? "the refused call" : "the accepted call"), where, sb1, sym, sb2, q->n, m);
+        }
+      }
+    }
+  }
+}
+
+static void s_target(var obj, const char* name, int all) {
+  int t = s_t.nt++; s_t.tgt[t] = obj; s_t.tname[t] = name; s_t.all[t] = all;
+  var e; int64_t l = (int64_t)safe_len(obj, &e); if (e || l > 12) l = 12;
+  s_t.len[t] = (int)l; s_t.lo[t] = (int)(-l - s_margin); s_t.hi[t] = (int)(l + s_margin);
+}
+
+/* build the view over c, change c (or the probe's length), then probe == 1: record which directions are well defined; else run */
+static void s_shape(struct scase* q, var c, int probe, int* safe, const char* cs) {
+  const int* p = q->p1; const int* o = q->p2;
+  var A1 = p[0] == 99 ? _ : (var)$I(p[0]); var B1 = p[1] == 99 ? _ : (var)$I(p[1]); var C1 = $I(p[2]);
+  var A2 = o[0] == 99 ? _ : (var)$I(o[0]); var B2 = o[1] == 99 ? _ : (var)$I(o[1]); var C2 = $I(o[2]);
+  var L = s_L[q->n];
+  int h = q->heap;
+  var S1 = h ? new(Slice, c, A1, B1, C1) : slice(c, A1, B1, C1);
+  /* (every compound literal at function scope: one made inside the switch would die with the switch's block) */
+  int sh = q->shape;
+  var S1b = sh != SH_ZIP_SS ? NULL : h ? new(Slice, c, A1, B1, C1) : slice(c, A1, B1, C1);
+  var X = sh == SH_ZIP_LS ? L : S1; var Y = sh == SH_ZIP_LS ? S1 : sh == SH_ZIP_SS ? S1b : L;
+  if (sh == SH_FILTER) a_mask = q->mask;
+  var V = sh == SH_SLICE ? S1
+        : sh == SH_SLICE2 ? (h ? new(Slice, S1, A2, B2, C2) : slice(S1, A2, B2, C2))
+        : sh == SH_MAP ? (h ? new(Map, S1, a_fmap) : map(S1, a_fmap))
+        : sh == SH_FILTER ? (h ? new(Filter, S1, a_fpred) : filter(S1, a_fpred))
+        : (h ? new(Zip, X, Y) : zip(X, Y));
+  s_t.nt = 0; s_pairs = sh == SH_ZIP_SL || sh == SH_ZIP_LS || sh == SH_ZIP_SS;
+  switch (sh) {
+  case SH_SLICE: s_target(S1, "slice", 1); break;
+  case SH_SLICE2: s_target(V, "outer-slice", 1); s_target(S1, "inner-slice", 1); break;
+  case SH_ZIP_SL: case SH_ZIP_LS: s_target(S1, "slice", 1); s_target(V, "zip", 0); break;
+  case SH_ZIP_SS: s_target(S1, "first-slice", 1); s_target(S1b, "second-slice", 1); s_target(V, "zip", 0); break;
+  case SH_MAP: s_target(S1, "slice", 1); s_target(V, "map", 0); break;
+  default: s_target(S1, "slice", 1); break;
+  }
+  if (probe) {
+    struct PSeq* ps = c; ps->n = q->n + mu_delta[q->mut];
+    for (int d = 0; d < 2; d++) {
+      ps->unsafe = 0;
+      int cnt = s_walk(V, d, 2 * q->n + HORIZON, -1, -1, 0);
+      safe[d] = cnt >= 0 && !ps->unsafe;
+    }
+  } else {
+    s_mutate(q, c);
+    var e; uint64_t l = safe_len(c, &e);
+    if (e || l != (uint64_t)(q->n + mu_delta[q->mut])) vf_note("midop shrunk: %s: the container has %" PRIu64 " items after the change, expected %d: case skipped", cs, l, q->n + mu_delta[q->mut]);
+    else s_experiment(q, V, cs, safe);
+  }
+  if (h) { if (V != S1) del(V); del(S1); if (S1b) del(S1b); }
+}
+
+static void s_run(struct scase* q) {
+  char cs[300]; s_case_str(q, cs, sizeof cs);
+  if (vf.replay && strncmp(vf.replay, cs, strlen(cs)) != 0) return;
+  vf_set_cur("%s", cs);
+  s_cur = q; s_shapes++;
+  snprintf(phasebuf, sizeof phasebuf, "midop/shrunk/%s/over-%s", sh_name[q->shape], sk_name[q->kind]); vf.phase = phasebuf;
+  int safe[2] = { 0, 0 };
+  static volatile int completed;
+  /* which directions are well defined: the same construction over the probe sequence */
+  var ps = new_raw(PSeq);
+  ((struct PSeq*)ps)->n = q->n; for (int i = 0; i < 16; i++) ((struct PSeq*)ps)->items[i] = hval[i];
+  completed = 0;
+  var e = VF_CATCH({ s_shape(q, ps, 1, safe, cs); completed = 1; });
+  del_raw(ps);
+  if (e && !completed) { s_skipped_walks += 2; return; }
+  if (!safe[0] && !safe[1]) { s_skipped_walks += 2; return; }
+  var c = q->kind == SK_ARRAY ? (var)new_raw(Array, Int) : q->kind == SK_LIST ? (var)new_raw(List, Int) : q->kind == SK_TUPLE ? (var)new_raw(Tuple)
+        : q->kind == SK_TABLE ? (var)new_raw(Table, Int, Int) : (var)new_raw(Tree, Int, Int);
+  for (int i = 0; i < q->n; i++) { if (q->kind <= SK_TUPLE) push(c, hval[i]); else set(c, hval[i], $I(i + 1000)); }
+  completed = 0;
+  e = VF_CATCH({ s_shape(q, c, 0, safe, cs); completed = 1; });
+  if (e && !completed) s_report("construct", "fwd", "raises", "building the view, changing the container or the calls with no iteration in progress raised %s", vf_exc_name(e));
+  del_raw(c);
+}
+
+static void phase_midop_shrunk(void) {
+  static const int P1[][3] = { {99,99,1}, {1,99,2}, {99,99,-1}, {99,99,2}, {1,99,1}, {99,99,-2}, {2,99,1}, {99,-1,1}, {1,4,1}, {1,99,3}, {99,99,3}, {1,-1,2}, {99,4,1}, {1,99,-1}, {99,-1,-2}, {0,99,-1} };
+  static const int P2[][3] = { {99,99,1}, {1,99,1}, {99,99,2}, {99,99,-1}, {1,-1,1} };
+  static const unsigned FM[] = { 0x55, 0xaa, 0xff };
+  static const int none[3] = { 99, 99, 1 };
+  int smin = (int)vf_param_i("smin", 4), smax = (int)vf_param_i("smax", 4), sstep = (int)vf_param_i("sstep", 1);
+  s_margin = (int)vf_param_i("sidx", 1); if (s_margin < 0) s_margin = 0; if (s_margin > 3) s_margin = 3;
+  int np1 = (int)vf_param_i("sparams", 8);
+  if (smax > 8) smax = 8;
+  for (size_t i = 0; i < 16; i++) if (!hval[i]) hval[i] = new_raw(Int, $I((int64_t)i));
+  for (int n = 0; n < 12; n++) { s_L[n] = new_raw(List, Int); for (int i = 0; i < n; i++) push(s_L[n], $I(i)); }
+  for (int n = smin; n <= smax; n += sstep) for (int k = 0; k < SK_N; k++) {
+    if (!kind_on[k == SK_ARRAY ? K_ARRAY : k == SK_LIST ? K_LIST : k == SK_TUPLE ? K_HTUPLE : k == SK_TABLE ? K_TABLE : K_TREE]) continue;
+    for (int mut = 0; mut < MU_N; mut++) {
+      if (mut == MU_RESIZE && k >= SK_TABLE) continue;
+      if (n + mu_delta[mut] < 1) continue;
+      for (int sh = 0; sh < SH_N; sh++) for (int heap = 0; heap < 2; heap++) for (int a = 0; a < np1 && a < (int)(sizeof P1 / sizeof P1[0]); a++) {
+        int nb = sh == SH_SLICE2 ? (int)(sizeof P2 / sizeof P2[0]) : sh == SH_FILTER ? (int)(sizeof FM / sizeof FM[0]) : 1;
+        for (int b = 0; b < nb; b++) {
+          struct scase q = { k, n, mut, sh, heap, P1[a], sh == SH_SLICE2 ? P2[b] : none, sh == SH_FILTER ? FM[b] : 0 };
+          s_run(&q);
+        }
+      }
+    }
+  }
+  vf_extra("shrunk_view_cases", "%" PRIu64, s_shapes);
+  vf_extra("shrunk_walks_compared", "%" PRIu64, s_judged_walks);
+  vf_extra("shrunk_walks_skipped_view_steps_through_the_end", "%" PRIu64, s_skipped_walks);
+  vf_extra("shrunk_walks_skipped_undisturbed_walk_fails_or_varies", "%" PRIu64, s_unstable);
+  vf_extra("shrunk_calls_refused", "%" PRIu64, s_refused_calls);
+  vf_extra("shrunk_calls_accepted", "%" PRIu64, s_accepted_calls);
+  vf_extra("shrunk_walks_with_a_call_refused_inside_the_views_own_window", "%" PRIu64, s_refused_by_container);
+}
+
 static void phase_midop(void) {
   a_fpred = $(Function, a_pred); a_fmap = $(Function, a_mapf);
   a_init();
+  /* part=classic: containers and views of constant length; part=shrunk: views over a container that changed length; default both */
+  int classic = !vf_param_is("part", "shrunk", "all"), shrunk = !vf_param_is("part", "classic", "all");
+  if (!classic) { phase_midop_shrunk(); return; }
   m_rangeneg = (int)vf_param_i("rangeneg", 0);
   m_zipget = (int)vf_param_i("zipget", 0);
   m_sliceget = (int)vf_param_i("sliceget", 0);
@@ -1733,6 +2056,7 @@ static void phase_midop(void) {
   vf_extra("successful_get_moves_iteration", "%s", ob);
   if (m_zip_partial) vf_note("not judged on this run (zipget=0): %" PRIu64 " refused get calls on a Zip whose earlier input is longer rewrote the value tuple held by the iteration before raising (proposed/D30-zip-get-partial-write.md)", m_zip_partial);
   if (!m_sliceget) vf_note("not run (sliceget=0): a successful get(slice, k) in the middle of an iteration over the same Slice; on this tree it rewrites the Slice's position and the walk then steps the underlying cursor through Terminal (proposed/D31-slice-get-clobbers-position.md)");
+  if (shrunk) phase_midop_shrunk();
   if (!m_rangeneg) vf_note("not judged on this run (rangeneg=0): get(-len-1) / get(-1000000) on Range and Slice (they return a value instead of raising; proposed/D29-range-get-negative-beyond-front.md)");
 }
 
@@ -1769,9 +2093,226 @@ static void g_walk(var z, int backward, int N, int mapfirst, int both) {
   if (g_n != N) g_bad = g_n < N ? "too-few" : "too-many";
 }
 
+/* ==== phase=gcitems, second part (sole=1): a heap view is the ONLY holder of its sources ==========================
+**
+** Each case builds a pipeline of heap views - new(Filter | Map | Zip | Slice | Range ...), depth 1 to 3 - inside a noinline
+** helper that returns nothing but the outermost view: the source containers (Array / List of Probe elements held by value,
+** heap Tuple of collector-managed Probes, Table / Tree with Probe keys), the inner views, the new(Function) objects and the
+** Ranges are reachable from the returned view and from nowhere else.  The dead stack is scrubbed, then collections are made
+** to happen (garbage is allocated until a sentinel Probe allocated beforehand has been finalised = a sweep has run; or the
+** collector's own GC_Mark + GC_Sweep are called), then: no Probe that was alive when the helper returned has been
+** finalised (ledger of vf_probe.h), and the view walked forwards and backwards yields exactly the items the definition of
+** the pipeline selects from the source values (every Probe it hands out intact).  A reclaimed source shows as finalised
+** elements, as an exception ("bad magic number"), as wrong items, or as a fault under AddressSanitizer.
+*/
+
+struct GC; void GC_Mark(struct GC* gc); void GC_Sweep(struct GC* gc);
+
+enum { GS_ARRAY, GS_LIST, GS_TUPLE, GS_TABLE, GS_TREE, GS_N };
+static const char* gs_name[] = { "array", "list", "tuple", "table", "tree" };
+enum { GO_END, GO_SRC, GO_RANGE, GO_FILTER3, GO_FILTER2, GO_MAP, GO_SLICE, GO_REV, GO_ZIP };
+struct gprog { const char* name; int positional; int op[8]; };
+static const struct gprog gprogs[] = {
+  { "new-filter(S)", 0, { GO_SRC, GO_FILTER3 } },
+  { "new-map(S)", 0, { GO_SRC, GO_MAP } },
+  { "new-zip(S,new-range)", 1, { GO_SRC, GO_RANGE, GO_ZIP } },
+  { "new-zip(new-range,S)", 1, { GO_RANGE, GO_SRC, GO_ZIP } },                 /* the heap form of enumerate */
+  { "new-slice(S,1,_,2)", 1, { GO_SRC, GO_SLICE } },
+  { "new-slice(S,_,_,-1)", 1, { GO_SRC, GO_REV } },                           /* the heap form of reverse */
+  { "new-range(heap-bounds)", 0, { GO_RANGE } },
+  { "new-zip(S,S')", 1, { GO_SRC, GO_SRC, GO_ZIP } },
+  { "new-map(new-filter(S))", 0, { GO_SRC, GO_FILTER3, GO_MAP } },
+  { "new-filter(new-map(S))", 0, { GO_SRC, GO_MAP, GO_FILTER2 } },
+  { "new-filter(new-filter(S))", 0, { GO_SRC, GO_FILTER3, GO_FILTER2 } },
+  { "new-map(new-map(S))", 0, { GO_SRC, GO_MAP, GO_MAP } },
+  { "new-slice(new-map(S),1,_,2)", 1, { GO_SRC, GO_MAP, GO_SLICE } },
+  { "new-map(new-slice(S,1,_,2))", 1, { GO_SRC, GO_SLICE, GO_MAP } },
+  { "new-filter(new-slice(S,_,_,-1))", 1, { GO_SRC, GO_REV, GO_FILTER3 } },
+  { "new-zip(new-filter(S),new-map(S'))", 1, { GO_SRC, GO_FILTER3, GO_SRC, GO_MAP, GO_ZIP } },
+  { "new-filter(new-zip(S,new-range))", 1, { GO_SRC, GO_RANGE, GO_ZIP, GO_FILTER3 } },
+  { "new-slice(new-zip(S,new-range),1,_,2)", 1, { GO_SRC, GO_RANGE, GO_ZIP, GO_SLICE } },
+  { "new-map(new-filter(new-slice(S,_,_,-1)))", 1, { GO_SRC, GO_REV, GO_FILTER3, GO_MAP } },
+};
+#define GMAXN 320
+
+static uint64_t g_dead;
+/* the value of an item; a Probe must be a live, intact element; a pair is (first, second) */
+static int64_t g_item(var it) {
+  var t = type_of(it);
+  if (t is Tuple) return g_item(get(it, $I(0))) * 4096 + g_item(get(it, $I(1)));
+  if (t is Probe) { if (!vf_probe_intact(it)) g_dead++; return ((struct Probe*)it)->val; }
+  return c_int(it);
+}
+static var g_keep3(var x) { return g_item(x) % 3 != 0 ? x : NULL; }
+static var g_keep2(var x) { return g_item(x) % 2 == 0 ? x : NULL; }
+static var g_plus1000(var x) { return new(Int, $I(g_item(x) + 1000)); }
+
+static var g_source(int sk, int N, int base) {
+  var c = sk == GS_ARRAY ? (var)new(Array, Probe) : sk == GS_LIST ? (var)new(List, Probe) : sk == GS_TUPLE ? (var)new(Tuple)
+        : sk == GS_TABLE ? (var)new(Table, Probe, Int) : (var)new(Tree, Probe, Int);
+  for (int i = 0; i < N; i++) {
+    if (sk == GS_TUPLE) push(c, new(Probe, $I(base + i)));
+    else if (sk <= GS_LIST) push(c, VF_P(base + i));
+    else set(c, VF_P(base + i), $I(i));
+  }
+  return c;
+}
+
+/* returns the outermost view and nothing else */
+static var __attribute__((noinline)) g_build(const struct gprog* pg, int sk, int N) {
+  var st[4]; int sp = 0, nsrc = 0;
+  for (int k = 0; k < 8 && pg->op[k] != GO_END; k++) {
+    switch (pg->op[k]) {
+    case GO_SRC: st[sp++] = g_source(sk, N, nsrc++ ? 500 : 0); break;
+    case GO_RANGE: st[sp++] = new(Range, new(Int, $I(0)), new(Int, $I(N))); break;
+    case GO_FILTER3: st[sp - 1] = new(Filter, st[sp - 1], new(Function, $(Function, g_keep3))); break;
+    case GO_FILTER2: st[sp - 1] = new(Filter, st[sp - 1], new(Function, $(Function, g_keep2))); break;
+    case GO_MAP: st[sp - 1] = new(Map, st[sp - 1], new(Function, $(Function, g_plus1000))); break;
+    case GO_SLICE: st[sp - 1] = new(Slice, st[sp - 1], $I(1), _, $I(2)); break;
+    case GO_REV: st[sp - 1] = new(Slice, st[sp - 1], _, _, $I(-1)); break;
+    case GO_ZIP: sp--; st[sp - 1] = new(Zip, st[sp - 1], st[sp]); break;
+    }
+  }
+  var top = st[0];
+  for (int i = 0; i < 4; i++) st[i] = NULL;
+  return top;
+}
+
+/* what the pipeline selects, from the definitions */
+static int64_t g_exp[GMAXN]; static int g_nexp; static int g_unequal_zip;
+static void g_model(const struct gprog* pg, int N) {
+  static int64_t st[4][GMAXN]; int ln[4]; int sp = 0, nsrc = 0;
+  g_unequal_zip = 0;
+  for (int k = 0; k < 8 && pg->op[k] != GO_END; k++) {
+    int64_t* a = sp ? st[sp - 1] : NULL; int m = 0;
+    switch (pg->op[k]) {
+    case GO_SRC: for (int i = 0; i < N; i++) st[sp][i] = (nsrc ? 500 : 0) + i; ln[sp++] = N; nsrc++; break;
+    case GO_RANGE: for (int i = 0; i < N; i++) st[sp][i] = i; ln[sp++] = N; break;
+    case GO_FILTER3: for (int i = 0; i < ln[sp - 1]; i++) if (a[i] % 3 != 0) a[m++] = a[i]; ln[sp - 1] = m; break;
+    case GO_FILTER2: for (int i = 0; i < ln[sp - 1]; i++) if (a[i] % 2 == 0) a[m++] = a[i]; ln[sp - 1] = m; break;
+    case GO_MAP: for (int i = 0; i < ln[sp - 1]; i++) a[i] += 1000; break;
+    case GO_SLICE: for (int i = 1; i < ln[sp - 1]; i += 2) a[m++] = a[i]; ln[sp - 1] = m; break;
+    case GO_REV: for (int i = 0, j = ln[sp - 1] - 1; i < j; i++, j--) { int64_t t = a[i]; a[i] = a[j]; a[j] = t; } break;
+    case GO_ZIP:
+      sp--;
+      if (ln[sp] != ln[sp - 1]) g_unequal_zip = 1;
+      m = ln[sp] < ln[sp - 1] ? ln[sp] : ln[sp - 1];
+      for (int i = 0; i < m; i++) st[sp - 1][i] = st[sp - 1][i] * 4096 + st[sp][i];
+      ln[sp - 1] = m; break;
+    }
+  }
+  g_nexp = ln[0]; memcpy(g_exp, st[0], g_nexp * sizeof g_exp[0]);
+}
+
+static uint64_t g_sentinel; static uint64_t g_unconfirmed, g_collections_confirmed;
+static void __attribute__((noinline)) g_garbage_probe(void) { var p = new(Probe, $I(-1)); g_sentinel = ((struct Probe*)p)->token; }
+/* mode 0: allocate until the collector has run on its own; mode 1: the collector's explicit entry points */
+static void __attribute__((noinline)) g_collect(int mode) {
+  g_garbage_probe(); g_scrub();
+  if (mode == 1) { struct GC* gc = current(GC); GC_Mark(gc); GC_Sweep(gc); }
+  else {
+    int extra = -1;
+    for (int k = 0; k < 8000 && extra != 0; k++) {
+      var g = new(Int, $I(k)); (void)g;
+      if (extra > 0) extra--;
+      else if (vf_led[g_sentinel] == 2) extra = 64;
+    }
+  }
+  if (vf_led[g_sentinel] == 2) g_collections_confirmed++; else g_unconfirmed++;
+}
+
+static int g_live_in(uint64_t t0, uint64_t t1) { int c = 0; for (uint64_t t = t0; t < t1; t++) if (vf_led[t] == 1) c++; return c; }
+
+static int64_t gs_got[GMAXN + HORIZON + 2]; static volatile int gs_ngot; static const char* volatile g_wbad;
+static void g_sole_walk(var v, int backward, int limit) {
+  gs_ngot = 0; g_wbad = NULL; vf.executions++;
+  for (var it = backward ? iter_last(v) : iter_init(v); it isnt Terminal; it = backward ? iter_prev(v, it) : iter_next(v, it)) {
+    if (gs_ngot >= limit) { g_wbad = "nonterminating"; return; }
+    if (it is NULL) { g_wbad = "null-item"; return; }
+    gs_got[gs_ngot] = g_item(it); gs_ngot = gs_ngot + 1;
+    if ((gs_ngot & 7) == 0) g_churn(gs_ngot);            /* allocation (and so collections) while the walk is in progress */
+  }
+}
+
+static int g_cmp64(const void* a, const void* b) { int64_t x = *(const int64_t*)a, y = *(const int64_t*)b; return x < y ? -1 : x > y; }
+
+static void g_sole_case(const struct gprog* pg, int sk, int N, int mode) {
+  char cs[200], label[240];
+  snprintf(cs, sizeof cs, "gcitems sole-holder %s S=%s[%d] collect=%s", pg->name, gs_name[sk], N, mode ? "forced" : "threshold");
+  if (vf.replay && strcmp(vf.replay, cs) != 0) return;
+  vf_watchdog(120);
+  vf_set_cur("%s", cs);
+  snprintf(phasebuf, sizeof phasebuf, "gcitems/sole/%s/over-%s/%s", pg->name, gs_name[sk], mode ? "forced" : "threshold"); vf.phase = phasebuf;
+  vf.evaluations++; vf.nontrivial++;
+  g_model(pg, N);
+  int unordered = sk >= GS_TABLE;
+  volatile var v = NULL;
+  uint64_t t0 = vf_led_next;
+  vf_led_err[0] = 0;
+  var e = VF_CATCH(v = g_build(pg, sk, N));
+  if (e) { snprintf(label, sizeof label, "%s/build-raises", phasebuf); vf_violation(label, NULL, "building the pipeline raised %s", vf_exc_name(e)); return; }
+  uint64_t t1 = vf_led_next;
+  g_scrub();
+  int live0 = g_live_in(t0, t1);
+  e = VF_CATCH(g_collect(mode));
+  g_scrub();
+  if (e) { snprintf(label, sizeof label, "%s/collection-raises", phasebuf); vf_violation(label, NULL, "the collection raised %s", vf_exc_name(e)); return; }
+  int live1 = g_live_in(t0, t1);
+  if (live1 != live0) {
+    snprintf(label, sizeof label, "%s/element-finalised-while-view-reachable", phasebuf);
+    vf_violation(label, NULL, "%d of the %d source elements alive when the builder returned have been finalised by the collection, although the view that holds their container is still referenced from the stack", live0 - live1, live0);
+    return;
+  }
+  if (vf_led_err[0]) { snprintf(label, sizeof label, "%s/ledger", phasebuf); vf_violation(label, NULL, "element ledger: %s", vf_led_err); return; }
+  for (int dir = 0; dir < 2; dir++) {
+    if (dir && g_unequal_zip) continue;              /* a Zip of unequal lengths walked backwards is the recorded finding D17 */
+    const char* dn = dir ? "bwd" : "fwd";
+    uint64_t dead0 = g_dead;
+    e = VF_CATCH(g_sole_walk((var)v, dir, g_nexp + HORIZON));
+    const char* sym = NULL; int at = -1;
+    if (e) sym = "raises";
+    else if (g_wbad) sym = g_wbad;
+    else if (g_dead != dead0) sym = "dead-element";
+    else if (gs_ngot != g_nexp) sym = gs_ngot < g_nexp ? "too-few" : "too-many";
+    else {
+      static int64_t a[GMAXN], b[GMAXN];
+      for (int i = 0; i < g_nexp; i++) { a[i] = gs_got[i]; b[i] = g_exp[dir && !unordered ? g_nexp - 1 - i : i]; }
+      if (unordered) { qsort(a, g_nexp, sizeof a[0], g_cmp64); qsort(b, g_nexp, sizeof b[0], g_cmp64); }
+      for (int i = 0; i < g_nexp && !sym; i++) if (a[i] != b[i]) { sym = "wrong-item"; at = i; }
+    }
+    if (sym) {
+      snprintf(label, sizeof label, "%s/%s/%s", phasebuf, dn, sym);
+      vf_violation(label, NULL, "%s walk after the collection: %s%s%s after %d of %d items%s (a source held by nothing but the view was reclaimed?)", dir ? "backward" : "forward", sym, e ? " " : "", e ? vf_exc_name(e) : "", gs_ngot, g_nexp, at >= 0 ? " (first difference reported)" : "");
+      return;
+    }
+  }
+  if (vf_led_err[0]) { snprintf(label, sizeof label, "%s/ledger", phasebuf); vf_violation(label, NULL, "element ledger: %s", vf_led_err); return; }
+  if (vf_want_sample()) vf_sample("%s -> %d source elements alive, %d items both ways", cs, live0, g_nexp);
+  v = NULL;
+}
+
+static void phase_gcitems_sole(int gmax) {
+  static const int sizes[] = { 3, 40, 300 };
+  if (!vf_led) vf_led_reset();
+  for (size_t si = 0; si < sizeof sizes / sizeof sizes[0]; si++) for (int sk = 0; sk < GS_N; sk++)
+    for (size_t pi = 0; pi < sizeof gprogs / sizeof gprogs[0]; pi++) for (int mode = 0; mode < 2; mode++) {
+      if (sizes[si] > gmax) continue;
+      if (sk >= GS_TABLE && gprogs[pi].positional) continue;     /* Table / Tree order is not specified: only order-free pipelines */
+      if (sk > 0 && gprogs[pi].op[0] == GO_RANGE && gprogs[pi].op[1] == GO_END) continue;
+      g_sole_case(&gprogs[pi], sk, sizes[si], mode);
+    }
+  vf_extra("sole_holder_collections_confirmed_by_sentinel", "%" PRIu64, g_collections_confirmed);
+  if (g_unconfirmed) vf_note("gcitems sole-holder: in %" PRIu64 " cases the sentinel garbage object was not finalised (conservatively retained): the collection of that case is not confirmed", g_unconfirmed);
+}
+
 static void phase_gcitems(void) {
   static const int sizes[] = { 3, 50, 300 };
   int gmax = (int)vf_param_i("gmax", 300);
+  /* part=items: items handed out by a view stay alive; part=sole: views as the only holders of their sources; default both */
+  int items = !vf_param_is("part", "sole", "all"), sole = !vf_param_is("part", "items", "all");
+  int solemax = (int)vf_param_i("solemax", 40);
+  if (sole) phase_gcitems_sole(solemax < gmax ? solemax : gmax);
+  if (!items) return;
   static const char* shape[] = { "new-zip(new-range,new-map)", "new-zip(new-map,new-range)", "new-zip(new-map,new-map)", "zip(new-range,new-map)" };
   var fn = $(Function, g_fresh);
   for (size_t si = 0; si < sizeof sizes / sizeof sizes[0]; si++) for (int sh = 0; sh < 4; sh++) for (int dir = 0; dir < 2; dir++) {
